@@ -84,16 +84,21 @@ def make_world():
 
 
 # ------------------------------------------------------------------------------------------ shared spec vocabulary
-H = z3.Function("height", I, I)   # ghost: height of a node in the entry heap (well-foundedness of the child relation)
+_CS = (smt.FieldArr, smt.IntArr, smt.LElemArr)   # sorts of the children structure (F:_children, llen, lelem)
+_H = z3.Function("height", *_CS, I, I)   # ghost: height of a node in a given children structure
+
+
+def H(s, n):
+    return _H(*s.cs, n)
 
 
 def wf_children(s):
     """Acyclicity of the children relation among allocated nodes (ghost height strictly decreases to children),
     and every listed child is an allocated Node."""
     n, i = z3.Ints("wf_n wf_i")
-    return z3.ForAll([n, i], z3.Implies(
+    return smt.FA([n, i], z3.Implies(
         z3.And(s.is_node(n), 0 <= i, i < s.nkids(n)),
-        z3.And(H(s.kid(n, i)) < H(n), H(s.kid(n, i)) >= 0)), patterns=[s.at(s.kids(n), i)])
+        z3.And(H(s, s.kid(n, i)) < H(s, n), H(s, s.kid(n, i)) >= 0)), patterns=[s.at(s.kids(n), i)])
 
 
 def node_ok(s, n):
